@@ -155,6 +155,19 @@ def binop(ip, opname, a, b, node=None):
         return a
     ea, eb = as_expr(ip, a), as_expr(ip, b)
     if op in ('&', '|', '^'):
+        # identities with a Python-level constant operand (e.g. `(not self.clk_stretch) | (scl_i == 1)`)
+        from .ir import _is_bool
+        for x, y in ((ea, eb), (eb, ea)):
+            if x.op == 'const' and x.w is None and isinstance(x.val, int):
+                if x.val == 0 and op in ('|', '^'):
+                    return y
+                if x.val == 0 and op == '&':
+                    return E('const', val=0)
+                if x.val == 1 and _is_bool(y) and y.op != 'const':
+                    if op == '&':
+                        return y
+                    if op == '|':
+                        return E('const', val=1)
         # flatten associative chains for canonical text
         args = []
         for x in (ea, eb):
